@@ -9,6 +9,7 @@ import Driver.Config
 import Driver.Chain
 import Driver.Plug
 import Driver.Sys
+import Driver.Serve
 import Std.Data.HashMap
 open Drv
 
@@ -135,4 +136,5 @@ def main (args : List String) : IO UInt32 := do
   | ["chain"] => run ⟨(), fun _ op res => ((), Chain.step op res)⟩; return 0
   | ["plug"] => run ⟨({} : Plug.St), Plug.step⟩; return 0
   | ["sys"] => run ⟨({} : SysE.St), SysE.step⟩; return 0
+  | ["serve"] => run ⟨(), fun _ op res => ((), Serve.step op res)⟩; return 0
   | _ => IO.eprintln "usage: drv <engine> < trace"; return 2
